@@ -86,95 +86,105 @@ def numpy_universe():
     return out
 
 
-class U_f32i8(AbstractDtype):
-    dtypes = ["float32", "int8"]
+def _define_user_categories():
+    """User categories are defined through the public API (AbstractDtype subclasses, make_numpy_struct_dtype); defining them must work."""
+    class U_f32i8(AbstractDtype):
+        dtypes = ["float32", "int8"]
 
 
-class U_single(AbstractDtype):
-    dtypes = "uint16"
+    class U_single(AbstractDtype):
+        dtypes = "uint16"
 
 
-class U_re_float(AbstractDtype):
-    dtypes = re.compile("float.*")
+    class U_re_float(AbstractDtype):
+        dtypes = re.compile("float.*")
 
 
-class U_re_int_anch(AbstractDtype):
-    dtypes = [re.compile("int(8|16)$")]
+    class U_re_int_anch(AbstractDtype):
+        dtypes = [re.compile("int(8|16)$")]
 
 
-class U_mixed(AbstractDtype):
-    dtypes = ("uint8", re.compile("complex"), "bfloat16")
+    class U_mixed(AbstractDtype):
+        dtypes = ("uint8", re.compile("complex"), "bfloat16")
 
 
-class U_flags_later(AbstractDtype):
-    dtypes = [re.compile("zzz"), re.compile("FLOAT32", re.IGNORECASE)]  # every pattern keeps its own flags
+    class U_flags_later(AbstractDtype):
+        dtypes = [re.compile("zzz"), re.compile("FLOAT32", re.IGNORECASE)]  # every pattern keeps its own flags
 
 
-class U_flags_first(AbstractDtype):
-    dtypes = [re.compile("COMPLEX64", re.IGNORECASE), re.compile("Int8")]
+    class U_flags_first(AbstractDtype):
+        dtypes = [re.compile("COMPLEX64", re.IGNORECASE), re.compile("Int8")]
 
 
-class U_backref(AbstractDtype):
-    dtypes = [re.compile("(u)int(8)"), re.compile(r"(float|int)(16|32)$"), re.compile(r"(complex)\d+$")]
+    class U_backref(AbstractDtype):
+        dtypes = [re.compile("(u)int(8)"), re.compile(r"(float|int)(16|32)$"), re.compile(r"(complex)\d+$")]
 
 
-class U_re_mid(AbstractDtype):
-    dtypes = re.compile("loat")  # re.match anchors at the start: matches nothing documented
+    class U_re_mid(AbstractDtype):
+        dtypes = re.compile("loat")  # re.match anchors at the start: matches nothing documented
 
 
-class U_tuple(AbstractDtype):
-    dtypes = ("int2", "uint4", "float8_e5m2")
+    class U_tuple(AbstractDtype):
+        dtypes = ("int2", "uint4", "float8_e5m2")
 
 
-class U_key(AbstractDtype):
-    dtypes = ["prng_key"]
+    class U_key(AbstractDtype):
+        dtypes = ["prng_key"]
 
 
-class U_upper(AbstractDtype):
-    dtypes = ["Q4_K", "bFloat"]
+    class U_upper(AbstractDtype):
+        dtypes = ["Q4_K", "bFloat"]
 
 
-class U_lower(AbstractDtype):
-    dtypes = ["q4_k"]
+    class U_lower(AbstractDtype):
+        dtypes = ["q4_k"]
 
 
-class U_generator(AbstractDtype):
-    dtypes = (d for d in ["float16", "uint32"])  # any iterable of names: a one-shot generator
+    class U_generator(AbstractDtype):
+        dtypes = (d for d in ["float16", "uint32"])  # any iterable of names: a one-shot generator
 
 
-class U_map(AbstractDtype):
-    dtypes = map(str.lower, ["INT16", "Complex128"])
+    class U_map(AbstractDtype):
+        dtypes = map(str.lower, ["INT16", "Complex128"])
 
 
-class U_dictkeys(AbstractDtype):
-    dtypes = {"int64": None, "float64": None}.keys()
+    class U_dictkeys(AbstractDtype):
+        dtypes = {"int64": None, "float64": None}.keys()
 
 
-STRUCT1 = STRUCTS["struct1"]
-U_struct = make_numpy_struct_dtype(STRUCT1, "U_struct")
+    STRUCT1 = STRUCTS["struct1"]
+    U_struct = make_numpy_struct_dtype(STRUCT1, "U_struct")
 
-USER = {
-    "U_f32i8": (U_f32i8, lambda n: n in ("float32", "int8")),
-    "U_single": (U_single, lambda n: n == "uint16"),
-    "U_re_float": (U_re_float, lambda n: re.match("float.*", n) is not None),
-    "U_re_int_anch": (U_re_int_anch, lambda n: re.match("int(8|16)$", n) is not None),
-    "U_mixed": (U_mixed, lambda n: n in ("uint8", "bfloat16") or re.match("complex", n) is not None),
-    "U_flags_later": (U_flags_later, lambda n: n.lower() == "float32" or n.startswith("zzz")),
-    "U_flags_first": (U_flags_first, lambda n: n.lower().startswith("complex64") or n.startswith("Int8")),
-    "U_backref": (U_backref, lambda n: re.match("(u)int(8)", n) is not None or re.match(r"(float|int)(16|32)$", n) is not None or re.match(r"(complex)\d+$", n) is not None),
-    "U_re_mid": (U_re_mid, lambda n: re.match("loat", n) is not None),
-    "U_tuple": (U_tuple, lambda n: n in ("int2", "uint4", "float8_e5m2")),
-    "U_key": (U_key, lambda n: n == "prng_key"),
-    "U_struct": (U_struct, lambda n: n == str(STRUCT1)),
-    "U_upper": (U_upper, lambda n: n in ("Q4_K", "bFloat")),
-    "U_lower": (U_lower, lambda n: n == "q4_k"),
-    "U_generator": (U_generator, lambda n: n in ("float16", "uint32")),
-    "U_map": (U_map, lambda n: n in ("int16", "complex128")),
-    "U_dictkeys": (U_dictkeys, lambda n: n in ("int64", "float64")),
-}
-for _n, _d in STRUCTS.items():
-    if _n != "struct1":
-        USER["U_" + _n] = (make_numpy_struct_dtype(_d, "U_" + _n), (lambda n, _s=str(_d): n == _s))
+    USER = {
+        "U_f32i8": (U_f32i8, lambda n: n in ("float32", "int8")),
+        "U_single": (U_single, lambda n: n == "uint16"),
+        "U_re_float": (U_re_float, lambda n: re.match("float.*", n) is not None),
+        "U_re_int_anch": (U_re_int_anch, lambda n: re.match("int(8|16)$", n) is not None),
+        "U_mixed": (U_mixed, lambda n: n in ("uint8", "bfloat16") or re.match("complex", n) is not None),
+        "U_flags_later": (U_flags_later, lambda n: n.lower() == "float32" or n.startswith("zzz")),
+        "U_flags_first": (U_flags_first, lambda n: n.lower().startswith("complex64") or n.startswith("Int8")),
+        "U_backref": (U_backref, lambda n: re.match("(u)int(8)", n) is not None or re.match(r"(float|int)(16|32)$", n) is not None or re.match(r"(complex)\d+$", n) is not None),
+        "U_re_mid": (U_re_mid, lambda n: re.match("loat", n) is not None),
+        "U_tuple": (U_tuple, lambda n: n in ("int2", "uint4", "float8_e5m2")),
+        "U_key": (U_key, lambda n: n == "prng_key"),
+        "U_struct": (U_struct, lambda n: n == str(STRUCT1)),
+        "U_upper": (U_upper, lambda n: n in ("Q4_K", "bFloat")),
+        "U_lower": (U_lower, lambda n: n == "q4_k"),
+        "U_generator": (U_generator, lambda n: n in ("float16", "uint32")),
+        "U_map": (U_map, lambda n: n in ("int16", "complex128")),
+        "U_dictkeys": (U_dictkeys, lambda n: n in ("int64", "float64")),
+    }
+    for _n, _d in STRUCTS.items():
+        if _n != "struct1":
+            USER["U_" + _n] = (make_numpy_struct_dtype(_d, "U_" + _n), (lambda n, _s=str(_d): n == _s))
+    return USER, STRUCT1
+
+
+try:
+    USER, STRUCT1 = _define_user_categories()
+    USER_BUILD_ERROR = None
+except Exception as _e:  # noqa: BLE001  (reported as a violation by run(): every one of these definitions is documented usage)
+    USER, STRUCT1, USER_BUILD_ERROR = {}, STRUCTS["struct1"], _e
 # names that only duck arrays carry (escape hatch for user array types, docs/api/array.md "Duck-type arrays")
 DUCK_ONLY_NAMES = ["Q4_K", "q4_k", "bFloat", "bfloat", "my_dtype", "Complex64", "FLOAT32", "Int8", "int8x"]
 DOCUMENTED = set().union(*[s for s in dt.TABLE.values() if s is not None])
@@ -194,6 +204,10 @@ def cat_class(cat):
 
 
 def run(ctx):
+    if USER_BUILD_ERROR is not None:
+        ctx.record(Violation("category-build", {"user_categories": "definition"},
+                             f"defining the user dtype categories (AbstractDtype subclasses with string / regex / iterable dtypes, make_numpy_struct_dtype) raised "
+                             f"{type(USER_BUILD_ERROR).__name__}: {USER_BUILD_ERROR}"))
     import jax
     import jax.numpy as jnp
 
